@@ -108,6 +108,10 @@ package router
 //@ func (c *prefetchCtl) reserve(key uint64) (ok bool)
 //@   props C19
 //@   requires c != nil && c.queue != nil
+//@   ghost nAcq int = 0
+//@   oncall Lock?: nAcq = nAcq + 1
+//@   oncall RLock?: nAcq = nAcq + 1
+//@   ensures [C19:one-critical-section] nAcq == 1
 //@   modifies obj(c.queue)
 //@   ensures [C19:single-flight] ok == !old(has(c.queue, key))
 //@   ensures [C19:reserved] has(c.queue, key)
@@ -116,6 +120,10 @@ package router
 //@ func (c *prefetchCtl) done(key uint64)
 //@   props C19
 //@   requires c != nil && c.queue != nil
+//@   ghost nAcq int = 0
+//@   oncall Lock?: nAcq = nAcq + 1
+//@   oncall RLock?: nAcq = nAcq + 1
+//@   ensures [C19:one-critical-section] nAcq == 1
 //@   modifies obj(c.queue)
 //@   ensures [C19:released] !has(c.queue, key)
 //@   ensures [C19:others-kept] forallkey(k, c.queue, k != key ==> has(c.queue, k) == old(has(c.queue, k)))
